@@ -8,9 +8,11 @@ implementation outputs against the property itself (edges of the input, acyclic,
 minimum, kruskal and prim agree); (b) the Coq boolean checkers kruskal_check / prim_check (proved sound
 w.r.t. the Prop specification in MstSpecProofs.v) and the brute-force kruskal_min_check judge the same outputs.
 """
+import copy
 import itertools
 import json
-from collections import Counter
+from collections import Counter, UserList
+from fractions import Fraction
 
 from harness.core import Ctx, VERIF, cbool, clist, cnat, copt, cz, guarded
 
@@ -113,12 +115,12 @@ def gen_kruskal_bad(rng):
     return {"kind": "kruskal_bad", "n": n, "edges": [list(e) for e in edges], "allow_forest": rng.random() < 0.5}
 
 
-def gen_deep_edges(rng, big=False):
+def gen_deep_edges(rng, big=False, k=None):
     """(n, edges, tag) on 8..18 nodes whose weights come in tournament order: weight 1 joins singletons pairwise,
     weight 2 the pairs, weight 3 the quadruples, ... so union-by-rank builds union-find trees of height >= 3 before the
     heavier edges (random pairs incl. redundant ones, pendant nodes hanging on the heaviest edges, isolated nodes) query
     deep nodes.  Node labels are randomly permuted, the edge list is shuffled."""
-    k = rng.choice([8, 8, 8, 16] if not big else [8, 8, 16, 16])
+    k = k or rng.choice([8, 8, 8, 16] if not big else [8, 8, 16, 16])
     n = k + (rng.randint(0, 6) if k == 8 else rng.randint(0, 2))
     canonical = rng.random() < 0.4
     edges = []
@@ -133,7 +135,7 @@ def gen_deep_edges(rng, big=False):
             edges.append((a, b, level) if rng.random() < 0.7 else (b, a, level))
             nxt.append(A + B)
         blocks = nxt
-    for _ in range(rng.randint(3, 10)):
+    for _ in range(rng.randint(3, 10) if k <= 16 else rng.randint(k // 2, 2 * k)):
         a, b = rng.randrange(k), rng.randrange(k)
         edges.append((a, b, level + rng.randint(1, 5)))
     for x in range(k, n):
@@ -194,70 +196,484 @@ def gen_prim_raw(rng, big=False):
             "labelling": rng.choice(["int", "str", "mixed"]), "tag": "raw", "float_w": False, "tuple_adj": False}
 
 
+# ---------------------------------------------------------------- round-2 families (HARDENING.md classes L I S M O A H)
+EDGE_KINDS = ["list", "tuple", "list_of_lists", "tuple_of_lists", "userlist"]
+ADJ_KINDS = ["list", "tuple", "list2", "items", "reiter"]
+
+
+def gen_kruskal_containers(rng, big=False):
+    """class I (kruskal): the edge container as list / tuple / UserList of tuples or of 3-element lists."""
+    c = gen_kruskal(rng, big) if rng.random() < 0.7 else gen_kruskal_deep(rng, big)
+    c["edges_kind"] = rng.choice(EDGE_KINDS[1:])
+    c["tag"] = "I:" + c["edges_kind"]
+    return c
+
+
+def gen_prim_labels(rng, big=False, base=None):
+    """class L (+I): prim over a pool of awkward hashable labels - None, False/0/0.0/-0.0, True/1/1.0, "", (), frozenset(),
+    ints >= 257 and 2^70+1 built at call time, inf, bytes, nested tuples - every occurrence a fresh object; adjacency values
+    as list / tuple / list of 2-lists / dict items view / re-iterable object."""
+    c = gen_prim(rng, big, base=base)
+    ids = prim_nodes(c)
+    rest = [k for k in range(3, POOL_SIZE)]
+    rng.shuffle(rest)
+    picks = ([0] if rng.random() < 0.7 else []) + ([1] if rng.random() < 0.6 else []) + ([2] if rng.random() < 0.4 else []) + rest
+    extra = [POOL_SIZE + k for k in range(len(ids))]
+    picks = (picks + extra)[:len(ids)]
+    rng.shuffle(picks)
+    c["labelling"] = "pool"
+    c["label_ids"] = [[i, k] for i, k in zip(ids, picks)]
+    c["pool_variant"] = [rng.randrange(4), rng.randrange(3)]
+    c["adj_kind"] = rng.choice(ADJ_KINDS)
+    c["tuple_adj"] = False
+    lab = dict((i, k) for i, k in c["label_ids"])
+    if c["start"] is not None and lab.get(c["start"]) == 0:
+        # start=None means "default start": the node labelled None can only be the start as the first key of the dict
+        a0 = c["start"]
+        c["adj"] = [kn for kn in c["adj"] if kn[0] == a0] + [kn for kn in c["adj"] if kn[0] != a0]
+        c["start"] = None
+    c["tag"] = "L:pool"
+    return c
+
+
+def gen_prim_iterables(rng, big=False):
+    """class I (prim): adjacency values of every re-iterable kind; a few one-shot generators (the annotation says Iterable)."""
+    c = gen_prim(rng, big)
+    c["adj_kind"] = rng.choice(ADJ_KINDS[1:] + ["gen"])
+    c["tuple_adj"] = False
+    c["labelling"] = rng.choice(["int", "str", "tuple", "bigint", "mixed"])
+    c["tag"] = "I:" + c["adj_kind"]
+    return c
+
+
+MAGNITUDES = ["2^31", "1e9", "2^53", "2^60", "1e18", "mix44", "tiny-diff", "dyadic", "float-huge"]
+
+
+def magnify(rng, edges, mode):
+    """New integer weights (model units) + (float_w, wscale): small structure (ties, order) of the old weights is kept, the
+    scale moves far from the comfort zone.  float inputs are only used where the float is exactly that integer."""
+    ws = sorted({w for _, _, w in edges})
+    rank = {w: i for i, w in enumerate(ws)}
+    base = {"2^31": 2 ** 31, "1e9": 10 ** 9, "2^53": 2 ** 53, "2^60": 2 ** 60, "1e18": 10 ** 18}.get(mode)
+    if base is not None:
+        sign = rng.choice([1, 1, -1])
+        neww = {w: sign * base + rank[w] - rng.randrange(2) for w in ws} if rng.random() < 0.7 else {w: (rank[w] - 1) * base + rank[w] for w in ws}
+        fw, p = (mode in ("2^31", "1e9") and rng.random() < 0.5), 0
+    elif mode == "mix44":
+        neww = {w: (2 ** 44 + rank[w]) if rng.random() < 0.5 else rank[w] - 1 for w in ws}
+        fw, p = rng.random() < 0.5, 0
+    elif mode == "tiny-diff":
+        neww = {w: 2 ** 40 + rank[w] for w in ws}      # with wscale -40: 1 + k * 2^-40, neighbours differ by ~1e-12
+        fw, p = True, -40
+    elif mode == "dyadic":
+        neww = {w: w * rng.choice([1, 3, 5]) for w in ws}
+        fw, p = True, rng.choice([-3, -1, -20])
+    else:  # float-huge: multiples of 2^30 below 2^60, exactly representable
+        neww = {w: (2 ** 29 + rank[w]) * 2 ** 30 for w in ws}
+        fw, p = True, 0
+    return [[a, b, neww[w]] for a, b, w in edges], fw, p
+
+
+def gen_kruskal_magnitude(rng, big=False):
+    c = gen_kruskal(rng, big) if rng.random() < 0.7 else gen_kruskal_deep(rng, big)
+    mode = rng.choice(MAGNITUDES)
+    c["edges"], c["float_w"], p = magnify(rng, c["edges"], mode)
+    if p:
+        c["wscale"] = p
+    c["tag"] = "M:" + mode
+    return c
+
+
+def gen_prim_magnitude(rng, big=False):
+    n, edges, _ = gen_edges(rng, big)
+    mode = rng.choice(MAGNITUDES)
+    edges2, fw, p = magnify(rng, [list(e) for e in edges], mode)
+    c = gen_prim(rng, big, base=(n, [tuple(e) for e in edges2], "M:" + mode))
+    c["float_w"] = fw
+    if p:
+        c["wscale"] = p
+    return c
+
+
+def big_edge_family(rng, thorough):
+    """class S: a few structured large instances (judged by the naive label-array reference and the size-independent
+    validity checks): > 2048 / 65537 edges in few weight classes, long chains, two cliques joined by a bridge, balanced
+    union sequences of 32 / 64 / 128 nodes (union-find height 5..7), thresholds 17 / 65 / 257 / 801 / 1025 edges."""
+    out = []
+
+    def K(n, edges, tag, af=None):
+        out.append({"kind": "kruskal", "n": n, "edges": [list(e) for e in edges], "big": True,
+                    "allow_forest": rng.random() < 0.5 if af is None else af, "float_w": rng.random() < 0.2,
+                    "edges_kind": rng.choice(["list", "tuple"]), "tag": "S:" + tag, "alias": len(edges) <= 70000})
+
+    def connected_multigraph(n, m, wmax):
+        perm = list(range(n))
+        rng.shuffle(perm)
+        es = [(perm[i], perm[rng.randrange(i)], rng.randint(1, wmax)) for i in range(1, n)]
+        while len(es) < m:
+            es.append((rng.randrange(n), rng.randrange(n), rng.randint(1, wmax)))
+        rng.shuffle(es)
+        return es
+
+    for m in [17, 65, 257, 801, 1025]:
+        n = rng.choice([6, 12, 30])
+        K(n, connected_multigraph(n, m, 3), f"m{m}")
+    for m in [2049, 2050, rng.randint(2051, 2600), 4097]:
+        n = rng.choice([3, 8, 40, 70])
+        K(n, connected_multigraph(n, m, rng.choice([1, 2, 3, 50])), f"m{m}")
+    # a bridge in the middle of a long edge list, everything else heavy parallel edges
+    half = rng.randint(1024, 1300)
+    K(3, [(0, 1, 5)] * half + [(1, 2, 3)] + [(0, 1, 5)] * half, "bridge-middle", af=False)
+    # two cliques joined by one bridge
+    q = 35
+    cl = [(a, b, rng.randint(1, 3)) for a in range(q) for b in range(a + 1, q)]
+    cl2 = [(a + q, b + q, w) for a, b, w in cl]
+    es = cl + [(rng.randrange(q), q + rng.randrange(q), rng.randint(1, 3))] + cl2
+    if rng.random() < 0.5:
+        rng.shuffle(es)
+    K(2 * q, es, "two-cliques")
+    K(20, connected_multigraph(20, 65537, 3), "m65537")
+    for n in [257, 1025, 3000]:
+        chain = [(i, i + 1, rng.randint(1, 4)) for i in range(n - 1)]
+        chords = [(a, rng.randrange(n), rng.randint(2, 9)) for a in (rng.randrange(n) for _ in range(n // 3))]
+        es = chain + chords
+        rng.shuffle(es)
+        K(n, es, f"chain{n}")
+    for k in [32, 64, 128]:
+        n, edges, tag = gen_deep_edges(rng, True, k=k)
+        K(n, edges, tag)
+    if thorough:
+        K(30, connected_multigraph(30, 100001, 5), "m1e5")
+        K(50, connected_multigraph(50, 1000001, 3), "m1e6")
+        K(66000, [(i, i + 1, 1 + i % 3) for i in range(65999)], "chain66000")
+        for _ in range(25):
+            m = rng.choice([2049, 2300, 3000, 4097, 8200])
+            n = rng.choice([3, 5, 20, 60, 200])
+            K(n, connected_multigraph(n, m, rng.choice([1, 2, 3, 4, 100])), f"m{m}")
+    return out
+
+
+def big_prim_family(rng, thorough):
+    out = []
+
+    def P(n, und, tag, start=None, labelling="int"):
+        adj = {i: [] for i in range(n)}
+        for a, b, w in und:
+            adj[a].append([b, w])
+            if a != b:
+                adj[b].append([a, w])
+        order = list(range(n))
+        if rng.random() < 0.5:
+            rng.shuffle(order)
+        out.append({"kind": "prim", "adj": [[a, adj[a]] for a in order], "und": None, "start": start, "sym": True, "big": True,
+                    "labelling": labelling, "tag": "S:" + tag, "float_w": False, "tuple_adj": False,
+                    "adj_kind": rng.choice(["list", "tuple"])})
+
+    for n in [300, 1025, 2500]:
+        P(n, [(i, i + 1, rng.randint(1, 3)) for i in range(n - 1)], f"chain{n}", start=rng.choice([None, 0, n // 2, n - 1]), labelling=rng.choice(["int", "bigint", "str"]))
+        P(n, [(i, (i + 1) % n, rng.randint(1, 3)) for i in range(n)], f"cycle{n}", start=rng.randrange(n))
+    P(2100, [(0, i, rng.randint(1, 3)) for i in range(1, 2100)], "star2100", start=rng.choice([0, 7]))
+    P(3, [(0, 1, rng.randint(1, 3)) for _ in range(2049)] + [(1, 2, 2)], "parallel2049", start=rng.choice([0, 2]))
+    side = 22
+    grid = [(r * side + c, r * side + c + 1, rng.randint(1, 3)) for r in range(side) for c in range(side - 1)]
+    grid += [(r * side + c, (r + 1) * side + c, rng.randint(1, 3)) for r in range(side - 1) for c in range(side)]
+    P(side * side, grid, "grid22", start=rng.randrange(side * side), labelling="tuple")
+    dense = [(a, b, rng.randint(1, 3)) for a in range(66) for b in range(a + 1, 66)]
+    P(66, dense, "dense66", start=rng.randrange(66), labelling="str")
+    if thorough:
+        P(20000, [(i, i + 1, 1 + i % 2) for i in range(19999)], "chain20000", start=0)
+        P(400, [(a, b, rng.randint(1, 5)) for a in range(400) for b in range(a + 1, min(400, a + 30))], "band400", start=5)
+    return out
+
+
+def start_sweep(rng, big=False):
+    """class O: the one option of prim - every node as start (and the default) on the same graph."""
+    base = gen_prim_labels(rng, big) if rng.random() < 0.4 else gen_prim(rng, big)
+    out = []
+    lab = dict((i, k) for i, k in base.get("label_ids", []))
+    for s in [None] + prim_nodes(base):
+        if s is not None and lab.get(s) == 0:
+            continue
+        out.append(dict(base, start=s, tag="O:start-sweep"))
+    return out
+
+
+def uf_events(n, edges):
+    """class H: a reference port of kruskal's union-find (recursive compression, union by rank) that reports rare internal
+    events of a run - used to steer generation and for the evidence histograms, never as an oracle."""
+    parent, rank = list(range(n)), [0] * n
+    ev = {"depth": 0, "swaps": 0, "rank_ties": 0, "compressions": 0, "rejected_deep": 0, "early_break": 0, "rejected": 0}
+
+    def depth(x):
+        d = 0
+        while parent[x] != x:
+            x, d = parent[x], d + 1
+        return d
+
+    def find(x):
+        if parent[x] != x:
+            r = find(parent[x])
+            if parent[x] != r:
+                ev["compressions"] += 1
+            parent[x] = r
+        return parent[x]
+
+    acc = 0
+    for u, v, _ in sorted(edges, key=lambda e: e[2]):
+        d = max(depth(u), depth(v))
+        ev["depth"] = max(ev["depth"], d)
+        ru, rv = find(u), find(v)
+        if ru == rv:
+            ev["rejected"] += 1
+            if d >= 2:
+                ev["rejected_deep"] += 1
+            continue
+        if rank[ru] < rank[rv]:
+            ru, rv = rv, ru
+            ev["swaps"] += 1
+        parent[rv] = ru
+        if rank[ru] == rank[rv]:
+            rank[ru] += 1
+            ev["rank_ties"] += 1
+        acc += 1
+        if acc == n - 1:
+            ev["early_break"] = 1
+            break
+    return ev
+
+
+def directed_cases(rng, big, want):
+    """Event-directed selection: many candidate inputs are scored by the reference port only (no implementation run);
+    the candidates richest in rare events (deep finds followed by rejections, rank swaps, compressions) are kept."""
+    scored = []
+    for _ in range(want * 25):
+        c = gen_kruskal_deep(rng, big) if rng.random() < 0.6 else gen_kruskal(rng, True)
+        if c["n"] < 1:
+            continue
+        ev = uf_events(c["n"], [tuple(e) for e in c["edges"]])
+        score = 3 * ev["rejected_deep"] + 2 * ev["swaps"] + ev["compressions"] + 4 * max(0, ev["depth"] - 2)
+        scored.append((score, len(scored), c))
+    scored.sort(reverse=True)
+    out = []
+    for _, _, c in scored[:want]:
+        c["tag"] = "H:directed"
+        out.append(c)
+    return out
+
+
 def label_of(mode, i):
+    """A FRESH label object for node id i (called once per occurrence: dict key, every neighbour listing, start), so
+    labels that are equal are in general not identical objects."""
     if mode == "int":
         return i
     if mode == "perm":
         return (i * 5 + 3) % 11 + 100 * (i // 11)
+    if mode == "bigint":
+        return int(str(1000 + 37 * i))          # ints >= 257 built at call time: == holds, `is` does not
     if mode == "str":
-        return f"node-{i}"
+        return "".join(["node-", str(i)])
     if mode == "tuple":
-        return (i % 2, f"t{i}")
+        return tuple([i % 2, "t" + str(i)])
     return [i, f"s{i}", (i, i), frozenset([i]), float(i) + 0.5, (None, i), -i - 1][i % 7] if i < 7 else ("big", i)
 
 
+ZERO_LIKE = [lambda: False, lambda: 0, lambda: 0.0, lambda: -0.0]
+ONE_LIKE = [lambda: True, lambda: 1, lambda: 1.0]
+POOL_SIZE = 20
+
+
+def pool_label(k, z, o, i):
+    """Label number k of the pool of awkward hashables (pairwise unequal for fixed z, o); a fresh object on every call."""
+    if k == 0:
+        return None
+    if k == 1:
+        return ZERO_LIKE[z]()
+    if k == 2:
+        return ONE_LIKE[o]()
+    if k >= POOL_SIZE:
+        return tuple(["n", k, i])
+    return [None, None, None,
+            lambda: "".join([]), lambda: tuple([]), lambda: frozenset([]), lambda: str(0), lambda: tuple([None]),
+            lambda: tuple([0]), lambda: int("1257"), lambda: (1 << 70) + 1, lambda: -1, lambda: float("inf"),
+            lambda: bytes(), lambda: str(None), lambda: tuple([1, 2]), lambda: frozenset([None]), lambda: int("100000"),
+            lambda: -0.5, lambda: tuple(["a", tuple(["b", None])])][k]()
+
+
+def labeller(case):
+    """id -> fresh label, for the case's labelling mode."""
+    mode = case["labelling"]
+    if mode == "pool":
+        ids = {int(a): int(k) for a, k in case["label_ids"]}
+        z, o = case.get("pool_variant", [0, 0])
+        return lambda i: pool_label(ids.get(i, POOL_SIZE + i), z, o, i)
+    return lambda i: label_of(mode, i)
+
+
+class ReIterable:
+    """An iterable that is neither list nor tuple (fresh iterator on every iter())."""
+
+    def __init__(self, items):
+        self._items = list(items)
+
+    def __iter__(self):
+        return iter(list(self._items))
+
+
 # ---------------------------------------------------------------- implementation runs
-def canon_w(x):
+TWO53 = 2 ** 53
+
+
+def w_conv(case):
+    """Model weight (an integer W) -> the number handed to the implementation: int, float(W) or float(W) * 2^p (exact)."""
+    p = case.get("wscale", 0)
+    if p:
+        return lambda w: float(w) * 2.0 ** p
+    return float if case.get("float_w") else int
+
+
+def w_back(case, x):
+    """Implementation number -> model units (int when integral, None for inf)."""
+    p = case.get("wscale", 0) if case else 0
     if isinstance(x, float):
         if x == float("inf"):
             return None
+        if x != x:
+            return x
+        if p:
+            x = x / 2.0 ** p
         if x == int(x):
             return int(x)
     return x
 
 
-def canon_result(res, back=None):
-    """Result -> dict(status, solution, objective, iterations, evaluations) with ints, labels mapped back."""
+def canon_w(x):
+    return w_back(None, x)
+
+
+def canon_result(res, back=None, case=None):
+    """Result -> dict(status, solution, objective, iterations, evaluations) in model units, labels mapped back."""
     sol = res.solution
     if sol is not None:
-        sol = [[(back[u] if back else u), (back[v] if back else v), canon_w(w)] for (u, v, w) in sol]
-    return {"status": res.status.name, "solution": sol, "objective": canon_w(res.objective),
+        sol = [[(back[u] if back else u), (back[v] if back else v), w_back(case, w)] for (u, v, w) in sol]
+    return {"status": res.status.name, "solution": sol, "objective": w_back(case, res.objective),
             "iterations": int(res.iterations), "evaluations": int(res.evaluations)}
 
 
-def run_kruskal_impl(case):
-    from solvor.mst import kruskal
+def public(r):
+    return (r["status"], r["solution"], r["objective"])
 
-    conv = float if case.get("float_w") else int
-    edges = [(u, v, conv(w)) for u, v, w in case["edges"]]
-    return canon_result(kruskal(case["n"], edges, allow_forest=case["allow_forest"], backend="python"))
+
+def build_edges(case):
+    conv = w_conv(case)
+    kind = case.get("edges_kind", "list")
+    if kind in ("list_of_lists", "tuple_of_lists"):
+        es = [[u, v, conv(w)] for u, v, w in case["edges"]]
+    else:
+        es = [(u, v, conv(w)) for u, v, w in case["edges"]]
+    if kind in ("tuple", "tuple_of_lists"):
+        return tuple(es)
+    if kind == "userlist":
+        return UserList(es)
+    return es
+
+
+def run_kruskal_impl(case):
+    """kruskal(backend="python") + aliasing / call-sequence checks: the caller's edge container is not modified, the
+    same object gives the same answer again, also after calls with the other allow_forest / the other back-end."""
+    from solvor.mst import kruskal
+    from solvor.rust import rust_available
+
+    edges = build_edges(case)
+    snap = copy.deepcopy(edges)
+    af = case["allow_forest"]
+    r = canon_result(kruskal(case["n"], edges, allow_forest=af, backend="python"), None, case)
+    alias = None
+    if edges != snap or type(edges) is not type(snap):
+        alias = "kruskal modified the caller's edge list"
+    elif case.get("alias", True):
+        kruskal(case["n"], edges, allow_forest=not af, backend="python")
+        if rust_available() and not case.get("wscale") and len(edges) <= 5000:
+            try:
+                kruskal(case["n"], edges, allow_forest=af, backend="rust")
+            except Exception:  # noqa: BLE001 - the Rust back-end is C12's subject; here only its side effects on the input matter
+                pass
+        r2 = canon_result(kruskal(case["n"], edges, allow_forest=af, backend="python"), None, case)
+        if edges != snap:
+            alias = "a sequence of kruskal calls modified the caller's edge list"
+        elif public(r2) != public(r):
+            alias = f"same edge list object, same options, different answer after intermediate calls: {public(r2)}"
+    r["alias"] = alias
+    return r
+
+
+def build_graph(case, lab):
+    conv = w_conv(case)
+    kind = case.get("adj_kind", "tuple" if case.get("tuple_adj") else "list")
+    graph, plain = {}, {}
+    for a, ns in case["adj"]:
+        items = [(lab(b), conv(w)) for b, w in ns]
+        plain[a] = [(b, conv(w)) for b, w in ns]
+        if kind == "items" and len({b for b, _ in ns}) == len(ns):
+            val = dict(items).items()
+        elif kind == "list2":
+            val = [list(it) for it in items]
+        elif kind == "reiter":
+            val = ReIterable(items)
+        elif kind == "gen":
+            val = (it for it in items)
+        elif kind in ("tuple", "items"):
+            val = tuple(items)
+        else:
+            val = items
+        graph[lab(a)] = val
+    return graph, plain
+
+
+def graph_snapshot(graph, back):
+    return [(back[k], [(back[b], w) for b, w in v]) for k, v in graph.items()]
 
 
 def run_prim_impl(case):
     from solvor.mst import prim
 
-    mode = case["labelling"]
-    conv = float if case.get("float_w") else int
-    wrap = tuple if case.get("tuple_adj") else list
-    ids = set()
+    lab = labeller(case)
+    ids = []
     for a, ns in case["adj"]:
-        ids.add(a)
-        ids.update(b for b, _ in ns)
+        ids.append(a)
+        ids.extend(b for b, _ in ns)
     if case["start"] is not None:
-        ids.add(case["start"])
-    fwd = {i: label_of(mode, i) for i in ids}
+        ids.append(case["start"])
     back = {}
-    for i, lbl in fwd.items():
-        assert lbl not in back, "label map must be injective"
+    for i in dict.fromkeys(ids):
+        lbl = lab(i)
+        assert lbl not in back, ("label map must be injective", lbl)
         back[lbl] = i
-    graph = {fwd[a]: wrap((fwd[b], conv(w)) for b, w in ns) for a, ns in case["adj"]}
-    start = None if case["start"] is None else fwd[case["start"]]
-    return canon_result(prim(graph, start=start), back)
+    graph, plain = build_graph(case, lab)
+    start = None if case["start"] is None else lab(case["start"])
+    assert not (start is None and case["start"] is not None), "a start labelled None cannot be passed (None means default)"
+    oneshot = case.get("adj_kind") == "gen"
+    before = None if oneshot else graph_snapshot(graph, back)
+    r = canon_result(prim(graph, start=start), back, case)
+    alias = None
+    if not oneshot:
+        if graph_snapshot(graph, back) != before:
+            alias = "prim modified the caller's graph"
+        elif case.get("alias", True) and case["adj"]:
+            other = lab(case["adj"][-1][0])
+            if other is not None:
+                prim(graph, start=other)
+            r2 = canon_result(prim(graph, start=None if case["start"] is None else lab(case["start"])), back, case)
+            if graph_snapshot(graph, back) != before:
+                alias = "a sequence of prim calls modified the caller's graph"
+            elif public(r2) != public(r):
+                alias = f"same graph object, same start, different answer after an intermediate call: {public(r2)}"
+    r["alias"] = alias
+    return r
 
 
 def run_impl(case):
     fn = run_prim_impl if case["kind"] == "prim" else run_kruskal_impl
-    res = guarded(fn, case, timeout=5)
+    res = guarded(fn, case, timeout=20 if case.get("big") else 5)
     if res[0] == "ok":
         return {"out": "ok", **res[1]}
     if res[0] == "exc":
@@ -296,9 +712,11 @@ def is_forest(nodes, es):
 
 def brute_min_forest(nodes, und_edges):
     """Minimum weight of a spanning forest by enumerating all edge subsets of the right size. None if too many."""
+    m = len(und_edges)
+    if m > 40:
+        return None
     _, k = comp_ids(nodes, und_edges)
     size = len(nodes) - k
-    m = len(und_edges)
     cnt = 1
     for i in range(size):
         cnt = cnt * (m - i) // (i + 1)
@@ -329,6 +747,19 @@ def naive_min_forest(nodes, und_edges):
     return total
 
 
+def obj_problem(obj, exact, weights):
+    """The reported objective against the exact total: equal whenever float addition is exact on these weights
+    (sum of magnitudes below 2^53); beyond that only float rounding of the running sum is allowed."""
+    mag = sum(abs(w) for w in weights)
+    if obj == exact:
+        return None
+    if mag < TWO53 or not isinstance(obj, (int, float)):
+        return f"objective {obj} is not the total weight {exact} of the returned edges"
+    if abs(Fraction(obj) - exact) <= Fraction(mag) * max(1, len(weights)) / 10 ** 12:
+        return None
+    return f"objective {obj} is not the total weight {exact} of the returned edges (beyond float rounding)"
+
+
 def undirected_key(e):
     a, b, w = e
     return (min(a, b), max(a, b), w)
@@ -336,8 +767,9 @@ def undirected_key(e):
 
 def judge_tree(nodes, und_edges, sol, obj, directed_multiset=None):
     """Common part: sol is a spanning forest of (nodes, und_edges) of minimum weight and obj is its weight."""
+    nodeset = set(nodes)
     for e in sol:
-        if not (isinstance(e[2], int) and e[0] in nodes and e[1] in nodes):
+        if not (isinstance(e[2], int) and e[0] in nodeset and e[1] in nodeset):
             return f"edge {e} is not an edge over the nodes with an integer weight"
     if directed_multiset is not None:
         have, want = Counter(map(tuple, sol)), directed_multiset
@@ -352,15 +784,17 @@ def judge_tree(nodes, und_edges, sol, obj, directed_multiset=None):
     comp_out, k_out = comp_ids(nodes, sol)
     if k_in != k_out or len(sol) != len(nodes) - k_in:
         return f"returned edges do not span: {k_out} components / {len(sol)} edges, input has {k_in} components on {len(nodes)} nodes"
-    if obj != sum(e[2] for e in sol):
-        return f"objective {obj} is not the total weight {sum(e[2] for e in sol)} of the returned edges"
+    total = sum(e[2] for e in sol)
+    bad = obj_problem(obj, total, [e[2] for e in sol])
+    if bad:
+        return bad
     best = brute_min_forest(nodes, und_edges)
     ref = naive_min_forest(nodes, und_edges)
     assert best is None or best == ref, ("oracles disagree", nodes, und_edges, best, ref)
-    if best is not None and obj != best:
-        return f"objective {obj} is not the minimum {best} over all spanning forests"
-    if obj != ref:
-        return f"objective {obj} is not the minimum {ref} (naive label-array Kruskal reference)"
+    if best is not None and total != best:
+        return f"total weight {total} of the returned edges is not the minimum {best} over all spanning forests"
+    if total != ref:
+        return f"total weight {total} of the returned edges is not the minimum {ref} (naive label-array Kruskal reference)"
     return None
 
 
@@ -387,15 +821,13 @@ def oracle_kruskal(case, r):
 
 
 def prim_nodes(case):
-    nodes = []
+    nodes = {}
     for a, ns in case["adj"]:
-        if a not in nodes:
-            nodes.append(a)
+        nodes.setdefault(a)
     for a, ns in case["adj"]:
         for b, _ in ns:
-            if b not in nodes:
-                nodes.append(b)
-    return nodes
+            nodes.setdefault(b)
+    return list(nodes)
 
 
 def oracle_prim(case, r):
@@ -432,7 +864,7 @@ def oracle_prim(case, r):
             if z not in seen:
                 seen.add(z)
                 stack.append(z)
-    if start not in nodes:
+    if start not in set(nodes):
         return None  # start is not a node: outside the property (recorded as a note), model comparison only
     if all(x in seen for x in nodes):
         if st != "OPTIMAL" or sol is None:
@@ -442,7 +874,7 @@ def oracle_prim(case, r):
             if arcs.get((a, b, w), 0) < 1 or a not in inn or b in inn:
                 return f"edge {(a, b, w)} does not extend the tree grown from start"
             inn.add(b)
-        if inn != set(nodes) or obj != sum(e[2] for e in sol):
+        if inn != set(nodes) or obj_problem(obj, sum(e[2] for e in sol), [e[2] for e in sol]):
             return f"tree covers {sorted(inn)} of {sorted(nodes)}, objective {obj}"
         return None
     if st != "INFEASIBLE" or sol is not None or obj is not None:
@@ -454,8 +886,9 @@ def oracle_agree(case, r, rk):
     """prim and kruskal on the same undirected graph: same feasibility, same objective."""
     if r["out"] != "ok" or rk["out"] != "ok":
         return None
-    a = (r["status"] == "OPTIMAL", r["objective"])
-    b = (rk["status"] == "OPTIMAL", rk["objective"])
+    tot = lambda x: None if x["solution"] is None else sum(e[2] for e in x["solution"])  # noqa: E731
+    a = (r["status"] == "OPTIMAL", tot(r))
+    b = (rk["status"] == "OPTIMAL", tot(rk))
     return None if a == b else f"prim gives {r['status']} {r['objective']}, kruskal gives {rk['status']} {rk['objective']}"
 
 
@@ -463,10 +896,12 @@ def kruskal_of_prim(case):
     nodes = prim_nodes(case)
     idx = {x: i for i, x in enumerate(nodes)}
     return {"kind": "kruskal", "n": len(nodes), "edges": [[idx[a], idx[b], w] for a, b, w in und_of(case)],
-            "allow_forest": False, "float_w": False, "tag": "from-prim"}
+            "allow_forest": False, "float_w": False, "tag": "from-prim", "alias": False, "big": case.get("big", False)}
 
 
 def oracle(case, r):
+    if r.get("alias"):
+        return r["alias"]
     if case["kind"] == "kruskal":
         return oracle_kruskal(case, r)
     if case["kind"] == "kruskal_bad":
@@ -478,26 +913,43 @@ def oracle(case, r):
     return bad
 
 
-def shrink(case, r):
-    """Drop edges while the oracle still rejects the implementation's answer."""
+def shrink(case, r, budget=400):
+    """Drop edges (chunks first for long lists) while the oracle still rejects the implementation's answer."""
     cur = case
-    changed = True
-    while changed:
-        changed = False
-        if cur["kind"] in ("kruskal", "kruskal_bad"):
-            for i in range(len(cur["edges"])):
-                c2 = dict(cur, edges=cur["edges"][:i] + cur["edges"][i + 1:])
-                if oracle(c2, run_impl(c2)):
-                    cur, changed = c2, True
-                    break
-        elif cur["sym"]:
+    calls = 0
+
+    def fails(c2):
+        nonlocal calls
+        calls += 1
+        return bool(oracle(c2, run_impl(c2)))
+
+    if cur["kind"] in ("kruskal", "kruskal_bad"):
+        chunk = max(1, len(cur["edges"]) // 2)
+        while chunk >= 1 and calls < budget:
+            i, progressed = 0, False
+            while i < len(cur["edges"]) and calls < budget:
+                c2 = dict(cur, edges=cur["edges"][:i] + cur["edges"][i + chunk:])
+                if len(c2["edges"]) < len(cur["edges"]) and fails(c2):
+                    cur, progressed = c2, True
+                else:
+                    i += chunk
+            if chunk == 1 and not progressed:
+                break
+            chunk = chunk // 2 if chunk > 1 else (1 if progressed else 0)
+        return cur
+    if cur["sym"] and cur.get("adj_kind") != "gen":
+        changed = True
+        while changed and calls < budget:
+            changed = False
             for a, b, w in und_of(cur):
+                if calls >= budget:
+                    break
                 adj = {k: [list(p) for p in ns] for k, ns in cur["adj"]}
                 adj[a].remove([b, w])
                 if a != b:
                     adj[b].remove([a, w])
                 c2 = dict(cur, adj=[[k, adj[k]] for k, _ in cur["adj"]], und=None)
-                if sym_ok(c2) and oracle(c2, run_impl(c2)):
+                if sym_ok(c2) and fails(c2):
                     cur, changed = c2, True
                     break
     return cur
@@ -534,10 +986,14 @@ def c_obs(r):
     sol = r["solution"]
     if sol is not None and not all(isinstance(e[2], int) and e[0] >= 0 and e[1] >= 0 for e in sol):
         return "OFail"
-    if r["objective"] is not None and not isinstance(r["objective"], int):
+    obj = r["objective"]
+    if sol is not None and obj is not None and obj != sum(e[2] for e in sol) and \
+            obj_problem(obj, sum(e[2] for e in sol), [e[2] for e in sol]) is None:
+        obj = sum(e[2] for e in sol)   # beyond 2^53 the float objective is the rounded total: the model is compared on the exact one
+    if obj is not None and not isinstance(obj, int):
         return "OFail"
     s = copt(sol, lambda l: clist(l, c_edge))
-    o = copt(r["objective"], cz)
+    o = copt(obj, cz)
     return f"(ODone ({r['status']}, {s}, {o}) {cnat(r['iterations'])} {cnat(r['evaluations'])})"
 
 
@@ -614,6 +1070,13 @@ def _corpus():
     return out
 
 
+def coq_sized(case):
+    """Cases evaluated by the Gallina model / checkers inside coqc (vm_compute stays cheap): up to ~150 edges."""
+    if case["kind"] == "prim":
+        return sum(len(ns) for _, ns in case["adj"]) <= 300 and len(case["adj"]) <= 140
+    return len(case["edges"]) <= 150 and case["n"] <= 140
+
+
 def nontrivial(case, r):
     if r["out"] != "ok":
         return False
@@ -623,7 +1086,8 @@ def nontrivial(case, r):
 
 
 def canon_case(case):
-    keys = ("kind", "n", "edges", "allow_forest", "adj", "start")
+    keys = ("kind", "n", "edges", "allow_forest", "adj", "start", "labelling", "label_ids", "pool_variant", "adj_kind",
+            "edges_kind", "wscale", "float_w")
     return json.dumps({k: case.get(k) for k in keys}, sort_keys=True)
 
 
@@ -645,6 +1109,17 @@ def run(ctx: Ctx):
     cases += [gen_prim_raw(ctx.rng, big) for _ in range(ctx.budget(80, 1500))]
     cases += [gen_kruskal_deep(ctx.rng, big) for _ in range(ctx.budget(70, 2500))]
     cases += [gen_prim(ctx.rng, big, base=gen_deep_edges(ctx.rng, big)) for _ in range(ctx.budget(20, 500))]
+    # round 2 (HARDENING.md): L labels, I iterables, M magnitudes, O option sweep, H event-directed, S sizes; A runs on every case
+    cases += [gen_prim_labels(ctx.rng, big) for _ in range(ctx.budget(70, 1500))]
+    cases += [gen_prim_labels(ctx.rng, big, base=gen_deep_edges(ctx.rng, big)) for _ in range(ctx.budget(10, 200))]
+    cases += [gen_prim_iterables(ctx.rng, big) for _ in range(ctx.budget(50, 800))]
+    cases += [gen_kruskal_containers(ctx.rng, big) for _ in range(ctx.budget(40, 800))]
+    cases += [gen_kruskal_magnitude(ctx.rng, big) for _ in range(ctx.budget(60, 1500))]
+    cases += [gen_prim_magnitude(ctx.rng, big) for _ in range(ctx.budget(40, 1000))]
+    for _ in range(ctx.budget(6, 60)):
+        cases += start_sweep(ctx.rng, big)
+    cases += directed_cases(ctx.rng, big, ctx.budget(12, 150))
+    cases += big_edge_family(ctx.rng, big) + big_prim_family(ctx.rng, big)
 
     k_cases, k_meta, p_cases, p_meta, ks_cases, ps_cases = [], [], [], [], [], []
     brute_skipped = 0
@@ -663,34 +1138,60 @@ def run(ctx: Ctx):
             ctx.count("prim_nodes", len(prim_nodes(case)))
             ctx.count("prim_start", "None" if case["start"] is None else "given")
             ctx.count("labelling", case["labelling"])
+        if kind == "kruskal" and len(case["edges"]) <= 400 and case["n"] >= 1:
+            ev = uf_events(case["n"], [tuple(e) for e in case["edges"]])
+            ctx.count("uf_max_find_depth", ev["depth"])
+            for k in ("swaps", "compressions", "rejected_deep", "early_break"):
+                ctx.count("uf_event_" + k, "yes" if ev[k] else "no")
+        if kind != "kruskal_bad":
+            ctx.count("family", str(case.get("tag", "")).split("/")[0] if str(case.get("tag", "")).startswith(("deep", "S:", "L:", "I:", "M:", "O:", "H:")) else "small-random")
+            ctx.count("containers", case.get("edges_kind") or case.get("adj_kind") or "list")
         bad = oracle(case, r)
+        if bad and case.get("adj_kind") == "gen":
+            # one-shot generators as adjacency values: prim walks graph.values() once to collect the nodes and finds the
+            # iterators exhausted afterwards.  Reported finding on the unchanged tree (not modelled; see report / known_findings).
+            ctx.known_hit("C13-prim-oneshot-adjacency", f"prim with one-shot iterators as adjacency values: {bad}; e.g. "
+                          "prim({0: iter([(1, 1)]), 1: iter([(0, 1)])}) -> INFEASIBLE on a connected graph")
+            ctx.count("known_oneshot", "hit")
+            continue
+        if case.get("adj_kind") == "gen":
+            ctx.count("known_oneshot", "ok")
+            continue
         if bad:
-            small = shrink(case, r)
+            small = shrink(case, r) if len(ctx.violations) < 4 else case   # shrinking long edge lists is the expensive part
             rs = run_impl(small)
             ctx.violation(f"{kind}: {oracle(small, rs) or bad}", {"case": small, "impl": rs, "original_case": case})
         if nontrivial(case, r):
             ctx.nontriv(canon_case(case))
         if kind in ("kruskal", "kruskal_bad"):
             if kind == "kruskal":
-                ctx.sample({"call": f"kruskal({case['n']}, {case['edges']}, allow_forest={case['allow_forest']}, backend='python')",
+                ctx.sample({"call": f"kruskal({case['n']}, {case['edges'][:40]}, allow_forest={case['allow_forest']}, backend='python')",
                             "result": {k: r.get(k) for k in ("status", "solution", "objective")}}, 2)
-            if case["n"] >= 0 and all(u >= 0 and v >= 0 for u, v, _ in case["edges"]):
+            if case["n"] >= 0 and all(u >= 0 and v >= 0 for u, v, _ in case["edges"]) and coq_sized(case):
                 k_cases.append(c_kruskal_case(case, r))
                 k_meta.append((case, r))
                 if kind == "kruskal":
                     ks_cases.append((c_kruskal_case(case, r), case, r))
         else:
-            ctx.sample({"call": f"prim(adj={case['adj']}, start={case['start']}, labels={case['labelling']})",
+            ctx.sample({"call": f"prim(adj={case['adj'][:12]}, start={case['start']}, labels={case['labelling']})",
                         "result": {k: r.get(k) for k in ("status", "solution", "objective")}}, 4)
-            p_cases.append(c_prim_case(case, r))
-            p_meta.append((case, r))
-            if case["sym"]:
-                ps_cases.append((c_prim_case(case, r), case, r))
+            if coq_sized(case):
+                p_cases.append(c_prim_case(case, r))
+                p_meta.append((case, r))
+                if case["sym"]:
+                    ps_cases.append((c_prim_case(case, r), case, r))
     ctx.notes.append("weights are integers (some passed as integral floats); float addition is exact on them, model over Z")
     ctx.notes.append("prim with a start that is not a node of the graph (returns OPTIMAL [] on a 1-node graph, INFEASIBLE otherwise) is "
                      "outside the property; such calls are only compared with the model")
     ctx.notes.append("graphs with > 13 edges: minimality is judged by the naive label-array Kruskal reference of the harness and the Coq "
                      "structural checker kruskal_check; the exponential Coq kruskal_min_check runs only up to 13 edges")
+    ctx.notes.append("round-2 families: prim labels from a pool of awkward hashables (None, False/0/0.0, True/1, '', (), ints >= 257, 2^70+1, inf, ...) "
+                     "built fresh at every occurrence; containers (tuple/UserList/lists of lists; items views, re-iterables); magnitudes "
+                     "2^31..10^18, 2^44+1 mixes, 2^-40 differences, dyadic floats (model sees the integer numerators; beyond 2^53 the float "
+                     "objective is only required to be the rounded total, the TREE must still be exactly minimum); start sweeps; "
+                     "event-directed union-find histories; sizes up to 65537 edges (10^6 thorough) judged by the naive reference; "
+                     "every call is followed by input-unmodified / same-answer-again checks (other allow_forest, Rust back-end, other start in between)")
+    ctx.notes.append("cases with > 150 edges are not evaluated inside coqc (insertion-sort model, vm_compute cost); they are judged by the Python oracle only")
     ctx.notes.append("iterations / evaluations counters are modelled but not compared (the property does not mention them)")
     ctx.notes.append("theorems are about the Gallina model over Z with nat node ids; hashable labels are mapped injectively to nat by "
                      "the harness (the code only hashes / compares labels for equality; heap ties are broken by the unique counter)")
